@@ -226,3 +226,18 @@ def build_any(ctx, cls_name, d, tag):
     obj._source = cloud(ctx, tag + '_src', n, d)
     obj._target = cloud(ctx, tag + '_tgt', n, d)
     return obj, info
+
+
+def assume_in_domain(ctx, t, pts):
+    """requires: pts lie in the domain of the (possibly projective)
+    homogeneous transform t, i.e. their homogeneous coordinate is non-zero.
+    Returns the image computed by the defining formula (not by menpo)."""
+    H = t.h_matrix
+    d = H.shape[0] - 1
+    pts = np.asarray(pts)
+    hx = np.hstack([pts, np.ones((pts.shape[0], 1), dtype=pts.dtype)])
+    hy = hx.dot(H.T)
+    w = hy[:, d]
+    for e in w:
+        ctx.assume(e != 0, 'point in the domain of the projective map')
+    return hy[:, :d] / w[:, None]
